@@ -123,7 +123,7 @@ PROPS["C11"] = dict(module="Grenad.Props.C11", streams={"wio": (640, 6400), "rio
 PROPS["C12"] = dict(module="Grenad.Props.C12", streams={"fault": (64, 640)},
                     rules={"ops": ["ins", "finish", "sinkstate", "c", "merge", "mergew", "sins", "!sins", "sfinish", "!sfinish", "snew"]})
 PROPS["C15"] = dict(module="Grenad.Props.C15", streams={"write": (640, 6400), "unsorted": (320, 3200)}, rules={"ops": ["finish", "ins"], "blocks": True})
-PROPS["C16"] = dict(module="Grenad.Props.C16", streams={"cursor": (640, 6400), "seek": (320, 3200), "open": (128, 1280)},
+PROPS["C16"] = dict(module="Grenad.Props.C16", streams={"cursor": (640, 6400), "seek": (320, 3200), "open": (128, 1280), "big": (4, 48)},
                     rules={"ops": ["c", "open", "file"], "loads": True, "fingerprint": False})
 PROPS["C17"] = dict(extra=extra_c17, module="Grenad.Props.C17", streams={"sorter": (960, 9600)}, rules={"ops": ["sins", "snew", "sfinish"], "alloc": True})
 PROPS["C18"] = dict(module="Grenad.Props.C18", streams={"unsorted": (960, 9600)}, rules={"ops": ["ins", "finish"], "blocks": True})
